@@ -50,7 +50,7 @@ class Sub:
 
 class BacklogScenario(NetScenario):
     names = {CLI: "cli", A: "A", B: "B"}
-    deliver_variants = {"A": ["sepcon", "sepnon", "silent"], "B": ["silent"]}
+    deliver_variants = {"A": ["sepcon", "sepnon", "respfirst", "silent"], "B": ["silent"]}
     horizon = 200.0
     max_steps = 160
 
